@@ -43,6 +43,7 @@ type Contract struct {
 	Requires []*Clause
 	Ensures  []*Clause
 	OnPanic  []*Clause // obligations on panicking exits
+	Commutes []*Clause // two calls (arguments X and X2) commute on the ghost world when the clause holds
 	Mints    []*Clause // for every bank mint on a path and every denom d with non-zero amount
 	Burns    []*Clause // likewise for burns
 	SupplyWrapper bool // forwards its coins argument to a bank mint/burn: its callers are the sites
@@ -296,7 +297,7 @@ func (ss *SpecSet) directive(cur **Contract, pkgPath, file string, ln int, body 
 		if *cur != nil {
 			(*cur).MigrationOnly = true
 		}
-	case "requires", "ensures", "onpanic", "mints", "burns":
+	case "requires", "ensures", "onpanic", "mints", "burns", "commutes":
 		if *cur == nil {
 			return fail(fmt.Errorf("%s outside a func block", word))
 		}
@@ -311,6 +312,8 @@ func (ss *SpecSet) directive(cur **Contract, pkgPath, file string, ln int, body 
 			(*cur).Ensures = append((*cur).Ensures, c)
 		case "onpanic":
 			(*cur).OnPanic = append((*cur).OnPanic, c)
+		case "commutes":
+			(*cur).Commutes = append((*cur).Commutes, c)
 		case "mints":
 			(*cur).Mints = append((*cur).Mints, c)
 		case "burns":
